@@ -85,3 +85,27 @@ Theorem C09_deferred_assembly : forall w r pre pbs rest,
   assemble_nodes w r (pre ++ NScope :: def_nodes true pbs ++ rest) =
   assemble_nodes w r (pre ++ NScope :: def_nodes false pbs ++ rest).
 Proof. exact assemble_nodes_deferred_inlined. Qed.
+
+(** END TO END.  A program with a macro application assembles to exactly what the program with the
+    body written at the call site in a fresh block assembles to — same blocks, labels, final
+    resolver state, or the same failure ([assemble_ast] = code generation of everything + all
+    passes).  Eager arguments: no side condition beyond "the arguments evaluate at the call site". *)
+From A816 Require Import Proofs.ReplayProofs Proofs.MacroInline.
+Theorem C09_inline_assembly : forall w r before after name args fi fi' fi'' md bound pvs lits,
+  (forall s' ns', code_gen_fuel w cg_depth {| cg_r := r; cg_macros := [] |} before = Ok (s', ns') ->
+     dict_get (cg_macros s') name = Some md /\ eval_macro_args w (cg_r s') (md_params md) args = Ok bound) ->
+  int_values bound = Some pvs -> closed_literals w pvs lits ->
+  assemble_ast w r (before ++ [AMacroApply name args fi] ++ after) =
+  assemble_ast w r (before ++ [ACompound (assigns pvs lits fi'' ++ md_body md) fi'] ++ after).
+Proof. exact macro_inline_eager_assembly. Qed.
+(** With deferred arguments, under the capture condition of C09_deferred_assembly taken at the
+    state in which the symbol pass enters the application scope ([no_capture]). *)
+Theorem C09_inline_assembly_deferred : forall w r before after name args fi fi' fi'' md pbs,
+  cg_ok r ->
+  (forall s' ns', code_gen_fuel w cg_depth {| cg_r := r; cg_macros := [] |} before = Ok (s', ns') ->
+     dict_get (cg_macros s') name = Some md /\ eval_macro_args w (cg_r s') (md_params md) args = Ok (bound_of pbs)) ->
+  lits_closed w pbs ->
+  no_capture w cg_depth {| cg_r := r; cg_macros := [] |} before (AMacroApply name args fi) after pbs ->
+  assemble_ast w r (before ++ [AMacroApply name args fi] ++ after) =
+  assemble_ast w r (before ++ [ACompound (stmts_of pbs fi'' ++ md_body md) fi'] ++ after).
+Proof. exact macro_inline_assembly. Qed.
